@@ -219,6 +219,7 @@ def t3(facts, tier):
     independent = []
     proved = []
     seen = {}
+    on_err = set()
     rf = reader_fns(facts)
     anc = anchors(facts, rf)
     from ..flow import parent_map
@@ -226,6 +227,7 @@ def t3(facts, tier):
     # them that looks data-independent locally is still triggered by the input
     by_id = {g["id"]: g for g in rf}
     ctx_dep = set()
+    err_dep = set()      # helpers reached from the Err arm of a read: a failing (truncated, unauthentic) stream reaches them
     for _round in range(3):
         for g in rf:
             gtv = gpm = None
@@ -241,6 +243,8 @@ def t3(facts, tier):
                     gpm = parent_map(g["body"])
                 if control_dependent_only(g, y, gtv, gpm) or g["id"] in ctx_dep:
                     ctx_dep.add(h["id"])
+                    if on_error_path(y, gpm) or g["id"] in err_dep:
+                        err_dep.add(h["id"])
     for f in rf:
         tv = None
         pm = None
@@ -262,11 +266,15 @@ def t3(facts, tier):
                     proved.append((f, x))
                     continue
                 key = site_key(anc[f["id"]], k)
+                if f["id"] in err_dep or on_error_path(x, pm):
+                    on_err.add(key)
                 seen.setdefault(key, (f, x, 0))
                 seen[key] = (seen[key][0], seen[key][1], seen[key][2] + 1)
     for key, (f, x, n) in sorted(seen.items()):
         reason = triage.get(key)
-        pr = ["C06", "C14"] if ("crypto" in key or "Crypto" in key or "encrypted" in key) else ["C06"]
+        # C14 (a tampered encrypted file never panics): the AEAD layer turns every modification into a read error, so the constructs that
+        # matter there are those of the crypto layer itself and those on the error path of a read
+        pr = ["C06", "C14"] if ("crypto" in key or "Crypto" in key or "encrypted" in key or key in on_err) else ["C06"]
         if reason:
             yield ob(pr, "T3", key, "pass", where(f, x), f"triaged ({n} site(s)): {reason}")
         else:
@@ -754,6 +762,21 @@ def data_dependent(f, site, tv, pm):
             return True
         child = p
         p = pm.get(id(p))
+    return False
+
+
+def on_error_path(site, pm):
+    """does the site lie in the arm of a match (or if-let / let-else) that handles the Err of a Result?"""
+    from ..flow import pat_covers_err
+    p, child = pm.get(id(site)), site
+    while p is not None:
+        if p.get("k") == "Match" and child is not p.get("e") and "Result<" in ((p.get("e") or {}).get("ty") or ""):
+            for a in p.get("arms", []):
+                if a.get("body") is child and a["pat"].get("k") == "Variant" and pat_covers_err(a["pat"]):
+                    return True
+        if p.get("k") == "LetS" and p.get("else") is child and "Result<" in ((p.get("init") or {}).get("ty") or ""):
+            return True
+        child, p = p, pm.get(id(p))
     return False
 
 
